@@ -11,6 +11,7 @@ transcribes). Each theorem below pins one generated shape to the shape the model
 against: a new / removed / re-ordered-with-effect guard, another callee, another argument or
 another constant makes the corresponding obligation fail. Renaming a local or re-ordering
 independent statements does not (the translator normalises those away).
+(File produced by gen/cmd/c14facts/accept_shapes.py; see there before editing.)
 -/
 namespace Rangers.Props.C14
 open Rangers Rangers.Model.Bls14
@@ -118,7 +119,7 @@ theorem shape_pairIsEqual : Shape.pairIsEqual = [
 /-- bn256.go: exits of G1.Unmarshal with their path conditions is what `Model/Bls14Verify.lean` / `Bls14G1.lean` transcribes. -/
 theorem shape_g1UnmarshalExits : Shape.g1UnmarshalExits = [
   "[len($0) < 2 * numBytes] -> return nil, errors.New(\"bn256: not enough data\")",
-  "[!($r.p.x == zero && $r.p.y == zero)][!$r.p.IsOnCurve()] -> return nil, errors.New(\"bn256: malformed point\")",
+  "[!($r.p.x == gfP{0} && $r.p.y == gfP{0})][!$r.p.IsOnCurve()] -> return nil, errors.New(\"bn256: malformed point\")",
   " -> return $0[2 * numBytes:], nil"
 ] := rfl
 
